@@ -60,7 +60,9 @@ def sync():
         amap = _append_map()
         for t in amap:
             excl += ["--exclude", "/" + t]
-        subprocess.run(["rsync", "-a", "--delete"] + excl + [REPO + "/", OVERLAY + "/"], check=True)
+        # no -t: a file whose CONTENT differs is rewritten with the current time (cargo fingerprints by mtime, and a restored
+        # file with an older mtime than the last build would otherwise leave stale object code behind); identical files are skipped
+        subprocess.run(["rsync", "-rlpgoD", "--checksum", "--delete"] + excl + [REPO + "/", OVERLAY + "/"], check=True)
         for t, files in amap.items():
             srcp = os.path.join(REPO, t)
             if not os.path.exists(srcp):
